@@ -47,15 +47,19 @@ inline int code_of(std::exception_ptr ep) {
 
 // ---- two user-defined receiver queries -----------------------------------------------------------
 inline constexpr struct get_q0_fn {
+  // noexcept exactly when the receiver's customisation is (or when falling back to the default answer)
   template <typename R>
-  int operator()(const R& r) const noexcept {
+  int operator()(const R& r) const noexcept(
+      !unifex::is_tag_invocable_v<get_q0_fn, const R&> || unifex::is_nothrow_tag_invocable_v<get_q0_fn, const R&>) {
     if constexpr (unifex::is_tag_invocable_v<get_q0_fn, const R&>) return unifex::tag_invoke(*this, r);
     else return 0;
   }
 } get_q0{};
 inline constexpr struct get_q1_fn {
+  // noexcept exactly when the receiver's customisation is (or when falling back to the default answer)
   template <typename R>
-  int operator()(const R& r) const noexcept {
+  int operator()(const R& r) const noexcept(
+      !unifex::is_tag_invocable_v<get_q1_fn, const R&> || unifex::is_nothrow_tag_invocable_v<get_q1_fn, const R&>) {
     if constexpr (unifex::is_tag_invocable_v<get_q1_fn, const R&>) return unifex::tag_invoke(*this, r);
     else return 0;
   }
